@@ -272,266 +272,186 @@ def flushReloadSt (cfg : Cfg) (st : St) : St :=
   { st with users := ru.1.db.users, nextId := ru.1.db.nextId, auth := [], cu := ru.1.cu,
             channels := rc.1.db, cname := rc.1.cname, ignores := ri }
 
+/-- `name` resolved by the `otherUser` converter, and that account's record -/
+def withOther (cfg : Cfg) (st : St) (name : Str) (f : Nat → C16.User → St × Bool) : St × Bool :=
+  match st.otherUser cfg name with
+  | none => (st, false)
+  | some id =>
+    match st.user id with
+    | none => (st, false)
+    | some u => f id u
+
+/-- the `user` converter: the account the caller is recognised as -/
+def withCaller (st : St) (pfx : Str) (f : Nat → C16.User → St × Bool) : St × Bool :=
+  match st.who pfx with
+  | .found id =>
+    (match st.user id with
+     | some u => f id u
+     | none => (st, false))
+  | _ => (st, false)
+
+/-- `ircdb.users.setUser(user)` at the end of a command whose `user` object has already been
+modified in place: when `setUser` raises the modified object is in the table all the same -/
+def finishSet (cfg : Cfg) (st : St) (id : Nat) (u' : C16.User) : St × Bool :=
+  let r := st.setUser cfg id u'
+  match r.2 with
+  | .ok => (r.1, true)
+  | _ => (putUser r.1 id u', false)
+
+def optPw (pw : Str) : Option Str := if pw.isEmpty then none else some pw
+
+/-- is the name free (the `getUserId(name)` probe of register/changename) -/
+def St.nameTaken (cfg : Cfg) (st : St) (name : Str) : Bool :=
+  if C03.isUserHostmask name then st.who name != .missing
+  else (st.users.find? (fun p => cfg.lower p.2.name = cfg.lower name)).isSome
+
+/-- `user register` -/
+def doRegister (cfg : Cfg) (st : St) (pfx name pw : Str) : St × Bool :=
+  if name.isEmpty || pw.isEmpty then (st, false)
+  else if st.nameTaken cfg name then (st, false)
+  else if C03.isUserHostmask name then (st, false)
+  else if C16.hasLineBreak name then (st, false)
+  else
+    let addHostmask : Option Bool :=
+      match st.who pfx with
+      | .found id => (match st.user id with
+          | some u => if isOwnerUser u then some false else none
+          | none => none)
+      | .missing => some true
+      | .duplicate => none
+    match addHostmask with
+    | none => (st, false)
+    | some ah =>
+      let id := st.nextId + 1
+      -- when addHostmask raises (after newUser()) the half-built account stays, without hostmask
+      let wild := ah && tooWild pfx
+      let u : C16.User := { name := name, hashed := true, password := cfg.hash pw,
+                            hostmasks := if ah && !wild then [pfx] else [] }
+      ({ st with nextId := id, users := st.users ++ [(id, u)] }, !wild)
+
 /-- body of a command once the gate has let it through; `true` = replied with success -/
 def body (cfg : Cfg) (st : St) (pfx : Str) : Cmd → St × Bool
-  | .register name pw =>
-    if name.isEmpty || pw.isEmpty then (st, false)
-    else
-      let taken : Bool :=
-        if C03.isUserHostmask name then st.who name != .missing
-        else (st.users.find? (fun p => cfg.lower p.2.name = cfg.lower name)).isSome
-      if taken then (st, false)
-      else if C03.isUserHostmask name then (st, false)
-      else if C16.hasLineBreak name then (st, false)
-      else
-        let addHostmask : Option Bool :=
-          match st.who pfx with
-          | .found id => (match st.user id with
-              | some u => if isOwnerUser u then some false else none
-              | none => none)
-          | .missing => some true
-          | .duplicate => none
-        match addHostmask with
-        | none => (st, false)
-        | some ah =>
-          let id := st.nextId + 1
-          if ah && tooWild pfx then
-            -- addHostmask raises after newUser(): the half-built account stays
-            ({ st with nextId := id, users := st.users ++ [(id, { name := name, hashed := true, password := cfg.hash pw })] }, false)
-          else
-            let u : C16.User := { name := name, hashed := true, password := cfg.hash pw,
-                                  hostmasks := if ah then [pfx] else [] }
-            ({ st with nextId := id, users := st.users ++ [(id, u)] }, true)
+  | .register name pw => doRegister cfg st pfx name pw
   | .unregister name pw =>
-    match st.otherUser cfg name with
-    | none => (st, false)
-    | some id =>
-      match st.user id with
-      | none => (st, false)
-      | some u =>
-        if st.callerIsOwner pfx || checkPassword cfg u pw then
-          ({ st with users := st.users.filter (fun p => p.1 ≠ id), auth := st.auth.filter (fun p => p.1 ≠ id) }, true)
-        else (st, false)
+    withOther cfg st name fun id u =>
+      if st.callerIsOwner pfx || checkPassword cfg u pw then
+        ({ st with users := st.users.filter (fun p => p.1 ≠ id), auth := st.auth.filter (fun p => p.1 ≠ id) }, true)
+      else (st, false)
   | .changename name newname pw =>
     if newname.isEmpty then (st, false) else
-    match st.otherUser cfg name with
-    | none => (st, false)
-    | some id =>
-      match st.user id with
-      | none => (st, false)
-      | some u =>
-        let taken : Bool :=
-          if C03.isUserHostmask newname then st.who newname != .missing
-          else (st.users.find? (fun p => cfg.lower p.2.name = cfg.lower newname)).isSome
-        if taken then (st, false)
-        else if C16.hasLineBreak newname then (st, false)
-        else if st.checkHostmask id u pfx true || checkPassword cfg u (if pw.isEmpty then none else some pw) then
-          let r := st.setUser cfg id { u with name := newname }
-          match r.2 with
-          | .ok => (r.1, true)
-          | _ => (putUser r.1 id { u with name := newname }, false)    -- the object was already renamed
-        else (st, false)
+    withOther cfg st name fun id u =>
+      if st.nameTaken cfg newname then (st, false)
+      else if C16.hasLineBreak newname then (st, false)
+      else if st.checkHostmask id u pfx true || checkPassword cfg u (optPw pw) then
+        finishSet cfg st id { u with name := newname }
+      else (st, false)
   | .identify name pw =>
     if pw.isEmpty then (st, false) else
-    match st.otherUser cfg name with
-    | none => (st, false)
-    | some id =>
-      match st.user id with
-      | none => (st, false)
-      | some u =>
-        if checkPassword cfg u (some pw) then
-          if st.checkHostmask id u pfx false || !u.secure then
-            let a := (st.authOf id).filter (· ≠ pfx) ++ [pfx]
-            let st1 := { st with auth := C16.dictSet id a st.auth }
-            let r := st1.setUser cfg id u
-            (r.1, r.2 == .ok)
-          else (st, false)
+    withOther cfg st name fun id u =>
+      if checkPassword cfg u (some pw) then
+        if st.checkHostmask id u pfx false || !u.secure then
+          finishSet cfg { st with auth := C16.dictSet id ((st.authOf id).filter (· ≠ pfx) ++ [pfx]) st.auth } id u
         else (st, false)
+      else (st, false)
   | .unidentify =>
-    match st.who pfx with
-    | .found id =>
-      (match st.user id with
-       | some u =>
-         let st1 := { st with auth := C16.dictSet id [] st.auth }
-         let r := st1.setUser cfg id u
-         (r.1, r.2 == .ok)
-       | none => (st, false))
-    | _ => (st, false)
+    withCaller st pfx fun id u => finishSet cfg { st with auth := C16.dictSet id [] st.auth } id u
   | .hostmaskAdd name hostmask pw =>
     if hostmask.isEmpty then (st, false) else
-    match st.otherUser cfg name with
-    | none => (st, false)
-    | some id =>
-      match st.user id with
+    withOther cfg st name fun id u =>
+      match st.check pfx C03.ownerS with
       | none => (st, false)
-      | some u =>
-        match st.check pfx C03.ownerS with
-        | none => (st, false)
-        | some callerIsOwner =>
-          if !C03.isUserHostmask hostmask then (st, false)
+      | some callerIsOwner =>
+        if !C03.isUserHostmask hostmask then (st, false)
+        else
+          let other := st.who hostmask
+          if other == .duplicate then (st, false)
+          else if (match other with | .found i => i != id | _ => false) then (st, false)
+          else if !checkPassword cfg u (optPw pw) && !st.checkHostmask id u pfx true && !callerIsOwner then (st, false)
+          else if tooWild hostmask then (st, false)
           else
-            let other := st.who hostmask
-            if other == .duplicate then (st, false)
-            else if (match other with | .found i => i != id | _ => false) then (st, false)
-            else if !checkPassword cfg u (if pw.isEmpty then none else some pw) && !st.checkHostmask id u pfx true
-                    && !callerIsOwner then (st, false)
-            else if tooWild hostmask then (st, false)
-            else
-              let u' := { u with hostmasks := C16.ircSetAdd u.hostmasks hostmask }
-              let r := st.setUser cfg id u'
-              match r.2 with
-              | .ok => (r.1, true)
-              | .duplicate => (putUser r.1 id { u' with hostmasks := u'.hostmasks.filter (fun x => C03.toLower x ≠ C03.toLower hostmask) }, false)
-              | .valueError => (putUser r.1 id u', false)
-  | .hostmaskRemove name hostmask pw =>
-    if hostmask.isEmpty then (st, false) else
-    match st.otherUser cfg name with
-    | none => (st, false)
-    | some id =>
-      match st.user id with
-      | none => (st, false)
-      | some u =>
-        let authd := checkPassword cfg u (if pw.isEmpty then none else some pw) || st.checkHostmask id u pfx true
-        let allowed : Option Bool := if authd then some true else st.check pfx C03.ownerS
-        match allowed with
-        | some true =>
-          if hostmask = s "all" then
-            let r := st.setUser cfg id { u with hostmasks := [] }
-            match r.2 with
-            | .ok => (r.1, true)
-            | _ => (putUser r.1 id { u with hostmasks := [] }, false)
-          else if u.hostmasks.any (fun x => C03.toLower x = C03.toLower hostmask) then
-            let u' := { u with hostmasks := u.hostmasks.filter (fun x => C03.toLower x ≠ C03.toLower hostmask) }
+            let u' := { u with hostmasks := C16.ircSetAdd u.hostmasks hostmask }
             let r := st.setUser cfg id u'
             match r.2 with
             | .ok => (r.1, true)
-            | _ => (putUser r.1 id u', false)
-          else (st, false)
-        | _ => (st, false)
+            | .duplicate =>
+              let hs := (C16.ircSetAdd u.hostmasks hostmask).filter (fun x => C03.toLower x ≠ C03.toLower hostmask)
+              (putUser r.1 id { u with hostmasks := hs }, false)
+            | .valueError => (putUser r.1 id u', false)
+  | .hostmaskRemove name hostmask pw =>
+    if hostmask.isEmpty then (st, false) else
+    withOther cfg st name fun id u =>
+      let authd := checkPassword cfg u (optPw pw) || st.checkHostmask id u pfx true
+      let allowed : Option Bool := if authd then some true else st.check pfx C03.ownerS
+      match allowed with
+      | some true =>
+        if hostmask = s "all" then finishSet cfg st id { u with hostmasks := [] }
+        else if u.hostmasks.any (fun x => C03.toLower x = C03.toLower hostmask) then
+          finishSet cfg st id { u with hostmasks := u.hostmasks.filter (fun x => C03.toLower x ≠ C03.toLower hostmask) }
+        else (st, false)
+      | _ => (st, false)
   | .setPassword name old new =>
     if old.isEmpty || new.isEmpty then (st, false) else
-    match st.otherUser cfg name with
-    | none => (st, false)
-    | some id =>
-      match st.user id with
-      | none => (st, false)
-      | some u =>
-        if st.who pfx == .duplicate then (st, false)
-        else if checkPassword cfg u (some old) || st.callerIsOwner pfx then
-          let u' := { u with hashed := true, password := cfg.hash new }
-          let r := st.setUser cfg id u'
-          match r.2 with
-          | .ok => (r.1, true)
-          | _ => (putUser r.1 id u', false)
-        else (st, false)
+    withOther cfg st name fun id u =>
+      if st.who pfx == .duplicate then (st, false)
+      else if checkPassword cfg u (some old) || st.callerIsOwner pfx then
+        finishSet cfg st id { u with hashed := true, password := cfg.hash new }
+      else (st, false)
   | .setSecure pw value =>
     if pw.isEmpty then (st, false) else
-    match st.who pfx with
-    | .found id =>
-      (match st.user id with
-       | some u =>
-         let v := match value with | some b => b | none => !u.secure
-         if checkPassword cfg u (some pw) && st.checkHostmask id u pfx false then
-           let u' := { u with secure := v }
-           let r := st.setUser cfg id u'
-           match r.2 with
-           | .ok => (r.1, true)
-           | _ => (putUser r.1 id u', false)
-         else (st, false)
-       | none => (st, false))
-    | _ => (st, false)
+    withCaller st pfx fun id u =>
+      if checkPassword cfg u (some pw) && st.checkHostmask id u pfx false then
+        finishSet cfg st id { u with secure := (match value with | some b => b | none => !u.secure) }
+      else (st, false)
   | .capAdd name cap0 =>
-    let cap := C03.toLower cap0
-    match st.otherUser cfg name with
-    | none => (st, false)
-    | some id =>
-      match st.user id with
-      | none => (st, false)
-      | some u =>
-        if C03.strEqual cap C03.ownerS then (st, false)
-        else
-          let entitled : Option Bool := if C03.isAntiCapability cap then some true else st.check pfx cap
-          match entitled with
-          | some true =>
-            (match C03.uadd u.caps cap with
-             | .ok caps' =>
-               let u' := { u with caps := caps' }
-               let r := st.setUser cfg id u'
-               (match r.2 with
-                | .ok => (r.1, true)
-                | _ => (putUser r.1 id u', false))
-             | .error _ => (st, false))
-          | _ => (st, false)
-  | .capRemove name cap0 =>
-    let cap := C03.toLower cap0
-    match st.otherUser cfg name with
-    | none => (st, false)
-    | some id =>
-      match st.user id with
-      | none => (st, false)
-      | some u =>
-        let entitled : Option Bool :=
-          match st.check pfx cap with
-          | some true => some true
-          | some false => some (C03.isAntiCapability cap)
-          | none => none
-        match entitled with
+    withOther cfg st name fun id u =>
+      if C03.strEqual (C03.toLower cap0) C03.ownerS then (st, false)
+      else
+        match (if C03.isAntiCapability (C03.toLower cap0) then some true else st.check pfx (C03.toLower cap0)) with
         | some true =>
-          (match C03.CapSet.remove u.caps cap with
-           | .ok caps' =>
-             let u' := { u with caps := caps' }
-             let r := st.setUser cfg id u'
-             (match r.2 with
-              | .ok => (r.1, true)
-              | _ => (putUser r.1 id u', false))
+          (match C03.uadd u.caps (C03.toLower cap0) with
+           | .ok caps' => finishSet cfg st id { u with caps := caps' }
            | .error _ => (st, false))
         | _ => (st, false)
+  | .capRemove name cap0 =>
+    withOther cfg st name fun id u =>
+      let entitled : Option Bool :=
+        match st.check pfx (C03.toLower cap0) with
+        | some true => some true
+        | some false => some (C03.isAntiCapability (C03.toLower cap0))
+        | none => none
+      match entitled with
+      | some true =>
+        (match C03.CapSet.remove u.caps (C03.toLower cap0) with
+         | .ok caps' => finishSet cfg st id { u with caps := caps' }
+         | .error _ => (st, false))
+      | _ => (st, false)
   | .chanCapAdd chan name cap =>
     if !st.opGuard pfx chan then (st, false) else
-    match st.otherUser cfg name with
-    | none => (st, false)
-    | some id =>
-      match st.user id with
-      | none => (st, false)
-      | some u =>
-        if !noSpaces cap then (st, false) else
-        -- for c in capabilities.split(): one word
-        match splitWs cap with
-        | [c] =>
-          (match C03.makeChannelCapability chan c with
+    withOther cfg st name fun id u =>
+      if !noSpaces cap then (st, false) else
+      -- for c in capabilities.split(): one word
+      match splitWs cap with
+      | [c] =>
+        (match C03.makeChannelCapability chan c with
+         | .error _ => (st, false)
+         | .ok cc =>
+           match C03.uadd u.caps cc with
            | .error _ => (st, false)
-           | .ok cc =>
-             match C03.uadd u.caps cc with
-             | .error _ => (st, false)
-             | .ok caps' =>
-               let u' := { u with caps := caps' }
-               let r := st.setUser cfg id u'
-               (match r.2 with
-                | .ok => (r.1, true)
-                | _ => (putUser r.1 id u', false)))
-        | _ => (st, false)
+           | .ok caps' => finishSet cfg st id { u with caps := caps' })
+      | _ => (st, false)
   | .chanCapRemove chan name cap =>
     if !st.opGuard pfx chan then (st, false) else
-    match st.otherUser cfg name with
-    | none => (st, false)
-    | some id =>
-      match st.user id with
-      | none => (st, false)
-      | some u =>
-        if !noSpaces cap then (st, false) else
-        match splitWs cap with
-        | [c] =>
-          (match C03.makeChannelCapability chan c with
-           | .error _ => (st, false)
-           | .ok cc =>
-             let r0 := C03.CapSet.remove u.caps cc
-             let u' := match r0 with | .ok caps' => { u with caps := caps' } | .error _ => u
-             let r := st.setUser cfg id u'
-             (match r.2, r0 with
-              | .ok, .ok _ => (r.1, true)
-              | .ok, .error _ => (r.1, false)
-              | _, _ => (putUser r.1 id u', false)))
-        | _ => (st, false)
+    withOther cfg st name fun id u =>
+      if !noSpaces cap then (st, false) else
+      match splitWs cap with
+      | [c] =>
+        (match C03.makeChannelCapability chan c with
+         | .error _ => (st, false)
+         | .ok cc =>
+           match C03.CapSet.remove u.caps cc with
+           | .ok caps' => finishSet cfg st id { u with caps := caps' }
+           | .error _ => ((finishSet cfg st id u).1, false))
+      | _ => (st, false)
   | .chanCapSet chan caps =>
     if !st.opGuard pfx chan then (st, false)
     else if caps.isEmpty || !caps.all noSpaces then (st, false)
@@ -580,7 +500,7 @@ def body (cfg : Cfg) (st : St) (pfx : Str) : Cmd → St × Bool
         | .error _ => (st, false))
     | .error _ => (st, false)
   | .configCaps v =>
-    match ({ st.caps with } : C03.Db).setDefaults v with
+    match st.caps.setDefaults v with
     | .ok db => ({ st with defaults := db.defaults }, true)
     | .error _ => (st, false)
   | .flushReload => (flushReloadSt cfg st, true)
